@@ -552,14 +552,14 @@ func c17R6(c *Ctx) {
 					}
 					_ = r
 					return c.maySucceed(in)
-				}, func(in ssa.Instruction) bool {
+				}, c.orWrapper("writer-switch", func(in ssa.Instruction) bool {
 					s2, isS := in.(*ssa.Store)
 					if !isS {
 						return false
 					}
 					n2, _ := fieldAddrName(s2.Addr)
 					return n2 == "trzszTransfer.writer"
-				})
+				}))
 				c.check(hit == nil, "tunnelConnected@recvAction/writer-switched", c.ipos(st), "once the tunnel is declared in use every successful exit has switched the writer to the connection", "the tunnel is declared in use but the function can succeed without switching the writer: the server answers in-band while the client ignores in-band bytes", c.pathStr(path)...)
 				c.check(isC && b && agreed, "tunnelConnected@recvAction", c.ipos(st), "the server uses the tunnel only when the client's action announces it", "the server decides on its own that the tunnel is in use (the client may have fallen back to in-band after its grace period)")
 			case "trzszTransfer.sendAction":
